@@ -82,7 +82,7 @@ func vhArbHeader(tag string, maxVals, maxNext int) jsonHeader {
 			Round:      verifrt.U32(tag + "pcp-round"),
 			PubKeyHash: verifrt.Bytes(tag+"pcp-pkh", 1),
 			Commits: []jsonProofEntry{
-				{BlockHash: verifrt.Bytes(tag+"pcp-h0", 1), Signatures: vhArbSigs(tag+"pcp-s0", 1)},
+				{BlockHash: verifrt.Bytes(tag+"pcp-h0", 1), Signatures: []gcrypto.SparseSignature{{KeyID: verifrt.Bytes(tag+"pcp-kid", 1), Sig: verifrt.Bytes(tag+"pcp-sig", 1)}}},
 				{BlockHash: verifrt.Bytes(tag+"pcp-h1", 1)},
 			},
 		}
@@ -145,7 +145,7 @@ func VH_C14_Tot_ProposedHeader() {
 	jph := jsonProposedHeader{
 		Header:         vhArbHeader("h-", 1, 0),
 		Round:          verifrt.U32("round"),
-		ProposerPubKey: vhArbKeyBytes("proposer"),
+		ProposerPubKey: vhArbKeyBytes("proposer", 4),
 	}
 	switch verifrt.Choose("ph#shape", 3) {
 	case 1:
@@ -175,9 +175,13 @@ func VH_C14_Tot_ProposedHeader() {
 // VH_C14_Tot_CommittedHeader: jsonCommittedHeader.ToCommittedHeader.
 func VH_C14_Tot_CommittedHeader() {
 	reg := vhRegistry(true)
-	jch := jsonCommittedHeader{
-		Header: vhArbHeader("h-", 1, 1),
-		Proof:  vhArbCommitProof("proof", 1, 1, 1),
+	// arbitrary commit proofs: VH_C14_Tot_CommitProof; here three representative shapes
+	jch := jsonCommittedHeader{Header: vhArbHeader("h-", 1, 0)}
+	switch verifrt.Choose("proof#shape", 3) {
+	case 1:
+		jch.Proof = jsonCommitProof{Round: verifrt.U32("proof-round"), PubKeyHash: []byte{}, Commits: []jsonProofEntry{}}
+	case 2:
+		jch.Proof = vhArbCommitProof("proof", 1, 1, 0)
 	}
 	var ch tmconsensus.CommittedHeader
 	var err error
